@@ -99,7 +99,7 @@ CFG = dict(
                          "policy:community-remove-incl-llgr-stale": 700, "policy:community-replace-with-nothing": 700,
                          "policy:community-remove": 700, "policy:ext-community-add": 700,
                          "policy:large-community-add": 700, "policy:as-prepend": 700, "policy:local-pref-set": 700,
-                         "llgr-history:cases-with-community-policy": 100}),
+                         "llgr-history:cases-with-community-policy": 40}),
     # every shard runs all 360 cells (covering set + random vectors from its own seed)
     quick=[e2("all", "event::verif::c09::run", 1, 120)],
     thorough=[e2("all", "event::verif::c09::run", 8, 200, random_per_cell=4000)],
